@@ -14,7 +14,7 @@
    Times are integers in units of 1/65536 s (or beat).  Instructions are uniform records
    [op, a, b, c, s, nk, na]:  Y a=delta | P s=child c=clock("" inherit) a=quant b=phase | ST s=routine (stop) | S a=lat b=kind(0 num,1 None) s=tag
    nk/na nested bundle (nk 0 none,1 num,2 None) | M s=tag | T c=clock a=num b=den | ET same through etempo() (NRT only) | TB c=clock a=beats (beats setter) | E raise
-   | X s=routine (pause) | Z s=routine (resume) | K a=seed s=seed name | KC c=child a=seed s=name | D (draw)
+   | YR a=delta (raise YieldAndReset, once) | X s=routine (pause) | Z s=routine (resume) | K a=seed s=seed name | KC c=child a=seed s=name | D (draw)
    | W s=cond (yield from cond.wait()) | G s=cond a=1/0 (set test true first / just signal)
    main only: U a=lat b=kind s=tag c=delay: a send from a plain thread after `delay` (RT; in NRT an outside send)
               IN a=timetag time b=kind(0 timed, 1 immediate, 2 plain message) s=tag: an incoming datagram (RT)  *)
@@ -28,7 +28,7 @@ ExactB2S(m, b) == ((b - m.bb) * m.den) % m.num = 0
 ExactS2B(m, s) == ((s - m.bs) * m.num) % m.den = 0
 
 Put(f, k, v) == (k :> v) @@ f
-NoRt == [pc |-> 1, st |-> "init", clock |-> "sys", n |-> 0, gen |-> "main", lt |-> 0]
+NoRt == [pc |-> 1, st |-> "init", clock |-> "sys", n |-> 0, gen |-> "main", lt |-> 0, yr |-> FALSE]
 
 Obs(r, n, secs, beats) == [k |-> "obs", r |-> r, n |-> n, secs |-> secs, beats |-> beats, tag |-> "", sk |-> "",
                            stamp |-> 0, subk |-> "-", sub |-> 0]
@@ -39,6 +39,7 @@ Refused(r, tag) == [k |-> "refused", r |-> r, n |-> 0, secs |-> 0, beats |-> 0, 
 Draw(r, g, i) == [k |-> "draw", r |-> r, n |-> i, secs |-> 0, beats |-> 0, tag |-> g, sk |-> "",
                   stamp |-> 0, subk |-> "-", sub |-> 0]
 
+Funcs(prog) == {prog.funcs[k] : k \in 1..Len(prog.funcs)}      \* names that are plain functions, not routines
 Init0(prog) ==
     LET tc == DOMAIN prog.clocks
         names == DOMAIN prog.routines IN
@@ -64,7 +65,8 @@ PlayQ(st, prog, lt, child, cname, pclock, pgen, q, ph) ==
     LET c == IF cname = "" THEN pclock ELSE cname
         m == st.clk[c]
         p == IF IsId(c) THEN lt ELSE OnGrid(S2B(m, lt), q, ph)      \* quant only means something on tempo clocks
-        cur == st.rt[child] IN
+        \* a plain function has no state: scheduling it again simply runs it again
+        cur == IF child \in Funcs(prog) THEN [NoRt EXCEPT !.gen = st.rt[child].gen] ELSE st.rt[child] IN
     IF cur.st \notin {"init", "paused"} THEN st          \* play() of a routine that is playing or done: no-op
     ELSE [st EXCEPT !.q = Put(st.q, c, Insert(Without(st.q[c], child), [p |-> p, s |-> st.ctr, t |-> child])),
                     !.ctr = st.ctr + 1,
@@ -130,6 +132,12 @@ Exec(st, prog, mode, r, lt, p) ==
             \* itself still registered on, is replaced)
             [s1 EXCEPT !.q = Put(s1.q, me.clock, Insert(Without(s1.q[me.clock], r), [p |-> p + i.a, s |-> s1.ctr, t |-> r])),
                        !.ctr = s1.ctr + 1]
+      [] i.op = "YR" ->     \* raise YieldAndReset(delta): the value is yielded and the body starts over at the next wake-up
+                            \* (only the first time it is reached: the drivers skip it afterwards, so programs end)
+            IF me.yr THEN Exec(adv(st), prog, mode, r, lt, p)
+            ELSE [st EXCEPT !.rt = Put(st.rt, r, [me EXCEPT !.pc = 1, !.n = 0, !.yr = TRUE]),
+                            !.q = Put(st.q, me.clock, Insert(Without(st.q[me.clock], r), [p |-> p + i.a, s |-> st.ctr, t |-> r])),
+                            !.ctr = st.ctr + 1]
       [] i.op = "E" -> [st EXCEPT !.rt = Put(st.rt, r, [me EXCEPT !.st = "done", !.pc = Len(body) + 1])]
       [] i.op = "P" -> Exec(PlayQ(adv(st), prog, lt, i.s, i.c, me.clock, me.gen, i.a, i.b), prog, mode, r, lt, p)
       [] i.op = "ST" ->     \* stop another routine: whatever it has queued is dropped when its turn comes
@@ -138,7 +146,8 @@ Exec(st, prog, mode, r, lt, p) ==
             \* (stop() also resets the routine's clock to SystemClock: a later signal() of a condition it was
             \* parked on schedules the dead routine there)
             Exec([s1 EXCEPT !.rt = Put(s1.rt, i.s, [o EXCEPT !.st = "done", !.clock = "sys"])], prog, mode, r, lt, p)
-      [] i.op \in {"S", "M"} -> Exec(Send(adv(st), mode, r, TRUE, lt, i), prog, mode, r, lt, p)
+      [] i.op \in {"S", "M"} ->       \* inside a plain function scheduled on a clock the current thread is the main one
+            Exec(Send(adv(st), mode, r, r \notin Funcs(prog), lt, i), prog, mode, r, lt, p)
       [] i.op \in {"T", "ET"} ->      \* tempo setter; etempo() re-bases at elapsed time, which in NRT is the logical time
             Exec(SetTempo(adv(st), lt, i.c, i.a, i.b), prog, mode, r, lt, p)
       [] i.op = "TB" -> Exec(SetBeats(adv(st), lt, i.c, i.a), prog, mode, r, lt, p)
